@@ -20,6 +20,9 @@ import (
 type G struct {
 	seq   int
 	depth int
+	// NarrowInts: every int inside a struct, map or list is in [0,24) (one CBOR head class):
+	// for checks whose subject is structure, not integer encoding.
+	NarrowInts bool
 }
 
 func (g *G) name(k string) string {
@@ -36,7 +39,7 @@ func (g *G) Gen(t *schemas.T) *refval.V {
 	switch t.Kind {
 	case "int":
 		i := nd.Int64(g.name("i"))
-		if g.depth > 1 {
+		if g.depth > 1 || (g.NarrowInts && g.depth > 0) {
 			nd.Assume(i >= 0 && i < 24) // inside nested containers: one CBOR head class (keeps the path count down)
 		}
 		return refval.MkInt(i)
@@ -508,6 +511,13 @@ func (g *G) Mutate(v *refval.V) *refval.V {
 	}
 	// scalars: another kind, or null
 	alts := []*refval.V{refval.MkNull(), refval.MkInt(nd.Int64(g.name("ri"))), refval.MkString(nd.String(g.name("rs"), 1)), refval.MkBool(true), refval.MkMap(nil, nil), refval.MkList()}
+	if v.K == refval.String {
+		// same kind, other content: an arbitrary string two bytes longer (more delimiters, another prefix, no member)
+		alts = append(alts, refval.MkString(nd.String(g.name("rl"), len(v.S)+2)))
+		if len(v.S) > 1 {
+			alts = append(alts, refval.MkString(nd.String(g.name("rq"), len(v.S)))) // an arbitrary string of the same length
+		}
+	}
 	return alts[nd.Choose(g.name("retype"), len(alts))]
 }
 
